@@ -22,8 +22,10 @@ LEVEL_TEXT = ("Lean 4 theorems for all graphs, selectors, hosts and node-map ite
               "their transitive dependencies (edges through aliases are edges), it is closed under direct dependencies, and selection fails exactly "
               "when that closure contains a platform-incompatible target. Tied to the code by differential runs in process and through real "
               "`grog build/test` invocations whose executed commands are compared with the predicted set.")
-LEVEL_NOTE = ("`only_selected_run` (no other command runs) is a composition with the walker/execution model of another group; here it is sampled through "
-              "the CLI traces (clean cache: executed set = selected targets). Pattern parsing is the model of C17. "
+LEVEL_NOTE = ("`only_selected_run` (no other command runs) is proved in Props/Compose.lean by composing select_closed / select_eq_closure with the walker "
+              "and pool-task models of C03-C05 (their hypotheses CfgOK.closed and CfgOK.desc_iff are discharged there; acyclicity, which analysis.BuildGraph "
+              "checks (C11), stays a hypothesis); it is also sampled through the CLI traces (clean cache: executed set = selected targets). "
+              "Pattern parsing is the model of C17. "
               "Trusted: Lean kernel; propext/Classical.choice/Quot.sound; the correspondence harness; loaders and cobra/viper flag plumbing (CLI tie only).")
 TECHNIQUE = "Lean 4 proof over an executable model + differential correspondence (in-process selector and real CLI build traces)"
 OBLIGATIONS = [
@@ -33,7 +35,13 @@ OBLIGATIONS = [
     "Grog.C12.select_order_independent",
     "Grog.C12.select_total",
     "Grog.C12.select_nodup",
+    # composition with the walker / pool-task models (Props/Compose.lean)
+    "Grog.C12.desc_iff",
+    "Grog.C12.walker_cfg_ok",
+    "Grog.C12.only_selected_run",
+    "Grog.C12.unselected_never_started",
 ]
+PROP_MODULES = ["GrogModel.Props.C12", "GrogModel.Props.Compose"]
 ASSUMPTIONS = [
     "the node map iteration order of Go is arbitrary: the theorems quantify over every order, the model side of the tie runs a shuffled order",
     "CLI tie: every generated command succeeds and the cache is empty, so executed = selected targets",
